@@ -55,6 +55,15 @@ Example C06_between_nonvacuous :
   views_eqb (map sub_view (sent pre)) [([0], [0], []); ([1], [1], [0])]%nat = true.
 Proof. vm_compute. reflexivity. Qed.
 
+(* a failed instantiate() (a template without a value) leaves the compiled subroutine as
+   it was: failing and retrying commits exactly what one successful instantiate() commits *)
+Theorem C06_failed_instantiate_then_retry : forall c v mid,
+  Forall queue_op mid ->
+  apply_op gen_exempt (apply_op gen_exempt (run_ops gen_exempt (apply_op gen_exempt (apply_op gen_exempt c SCompile)
+     SInstantiateFail) mid) (SInstantiate v)) SCommit =
+  apply_op gen_exempt (apply_op gen_exempt (run_ops gen_exempt (apply_op gen_exempt c SCompile) mid) (SInstantiate v)) SCommit.
+Proof. exact (failed_instantiate_then_retry gen_exempt). Qed.
+
 (* with the NV transpile pass (simulation mode): filling the rotation immediates and
    transpiling commute, for ALL programs of the C08 transpiler model at the regenerated
    decomposition table.  A Template is represented by the (negative) integer standing for
